@@ -245,4 +245,133 @@ example :
     (run baseRoutes { exOn with downDur := 2, upDur := 0 } [resetOp, .tick, .tick, .tick]).hist = [.on, .off, .shuttingDown] := by
   decide
 
+/-! ### a session that survives a power cycle cannot be used while the node is not ON -/
+
+/-- what can be done TO or WITH the sessions of a node from outside: a request to the node, a login attempt, a frame
+arriving at an interface (a remote terminal command, a remote logoff, a remote login are frames), the sweep of a tick -/
+inductive SOp
+  | req (key : String) (sub : Sub)
+  | login (usm : Nat) (remote : Bool)
+  | frame (i : Nat)
+  | sweep (t : Int)
+deriving DecidableEq, Repr
+
+/-- the visible outcome: the request's answer / whether the login succeeded / how far the frame climbed -/
+inductive SOut
+  | resp (r : Resp) | login (ok : Bool) | climbed (l : List Layer) | swept
+deriving DecidableEq, Repr
+
+def sstep (tbl : List Route) (ns : Node × Sessions) : SOp → (Node × Sessions) × SOut
+  | .req key sub => (((request tbl ns.1 key sub).1, ns.2), .resp (request tbl ns.1 key sub).2)
+  | .login j remote => ((ns.1, (ns.2.login (usmCanPerform ns.1 j) remote).1), .login (ns.2.login (usmCanPerform ns.1 j) remote).2)
+  | .frame i => (ns, .climbed (frameClimbs ns.1 i))
+  | .sweep t => ((ns.1, ns.2.pre t), .swept)
+
+/-- **a surviving session is inert while its node is not ON.** Nothing in the code ends a session when its node shuts
+down, so a session younger than the time-out is still in the (STOPPED) session manager when the node is OFF, and is
+there again when the services come back. C12 does not forbid that: its text is about what a node that is not ON DOES —
+no service RUNNING once OFF (the session manager is STOPPED: `C12_off_nothing_running`), every request but start-up
+refused, no traffic processed — not about what a stopped service remembers. What C12 does demand holds: while the node is
+not ON (interfaces down, as they are on every reachable state) the session can be neither used nor refreshed nor joined —
+every request other than `startup` is refused and changes neither node nor sessions (`remote_logoff`, terminal and
+user-manager requests included), every login is refused, every frame (remote command, remote login, remote logoff) stops
+at the interface; the ONLY thing that happens to the sessions is the time-out sweep, which can only end them. -/
+theorem C12_session_inert_while_not_on {tbl : List Route} (hg : allGuarded tbl = true) (n : Node) (s : Sessions)
+    (hne : n.st ≠ .on) (hnic : NicInv n) (op : SOp) :
+    (∀ key sub, op = .req key sub → key ≠ "startup" →
+      (sstep tbl (n, s) op).1 = (n, s) ∧ ((sstep tbl (n, s) op).2 = .resp .failure ∨ (sstep tbl (n, s) op).2 = .resp .unreachable)) ∧
+    (∀ j remote, op = .login j remote → sstep tbl (n, s) op = ((n, s), .login false)) ∧
+    (∀ i, op = .frame i → sstep tbl (n, s) op = ((n, s), .climbed [.iface])) ∧
+    (∀ t, op = .sweep t → (sstep tbl (n, s) op).1.1 = n ∧
+      ((sstep tbl (n, s) op).1.2.loc = none ∨ (sstep tbl (n, s) op).1.2.loc = s.loc) ∧
+      (∀ r ∈ (sstep tbl (n, s) op).1.2.rem, r ∈ s.rem)) := by
+  refine ⟨?_, ?_, ?_, ?_⟩
+  · intro key sub hop hk
+    subst hop
+    have := C12_refused_unless_startup hg n hne key sub hk
+    simp only [sstep]
+    rw [this]
+    refine ⟨rfl, ?_⟩
+    split
+    · exact Or.inl rfl
+    · exact Or.inr rfl
+  · intro j remote hop
+    subst hop
+    simp only [sstep]
+    rw [C12_login_needs_on n j s remote hne]
+  · intro i hop
+    subst hop
+    have hoff := hnic hne
+    have : nicPasses n i = false := by
+      unfold nicPasses
+      cases hc : n.nics[i]? with
+      | none => rfl
+      | some c => exact hoff c (List.mem_of_getElem? hc)
+    simp [sstep, frameClimbs, this]
+  · intro t hop
+    subst hop
+    refine ⟨rfl, ?_, ?_⟩
+    · show (s.pre t).loc = none ∨ (s.pre t).loc = s.loc
+      rw [(Sessions.pre_loc s t).1]
+      cases hl : s.loc with
+      | none => exact Or.inl rfl
+      | some l =>
+        simp only
+        split
+        · exact Or.inl rfl
+        · exact Or.inr rfl
+    · intro r hr
+      have : r ∈ s.rem.filter (fun r => !decide (r + s.remoteTimeout ≤ t)) := hr
+      exact (List.mem_filter.mp this).1
+
+def srun (tbl : List Route) (ns : Node × Sessions) : List SOp → Node × Sessions
+  | [] => ns
+  | op :: ops => srun tbl (sstep tbl ns op).1 ops
+
+/-- and over a whole stay in non-ON states: along any sequence of such operations during which the node is never ON
+(no start-up request among them: that is what ends the stay), no session is added and none is refreshed — the local
+session is the one that was there or gone, the remote sessions are a sub-list of the ones that were there -/
+theorem C12_sessions_only_shrink_while_not_on {tbl : List Route} (hg : allGuarded tbl = true) (n : Node) (s : Sessions)
+    (hne : n.st ≠ .on) (hnic : NicInv n) (ops : List SOp) (hns : ∀ op ∈ ops, ∀ sub, op ≠ .req "startup" sub) :
+    (srun tbl (n, s) ops).1 = n ∧ ((srun tbl (n, s) ops).2.loc = none ∨ (srun tbl (n, s) ops).2.loc = s.loc) ∧
+    (∀ x ∈ (srun tbl (n, s) ops).2.rem, x ∈ s.rem) := by
+  induction ops generalizing s with
+  | nil => exact ⟨rfl, Or.inr rfl, fun _ h => h⟩
+  | cons op ops ih =>
+    have hstep : (sstep tbl (n, s) op).1.1 = n ∧
+        ((sstep tbl (n, s) op).1.2.loc = none ∨ (sstep tbl (n, s) op).1.2.loc = s.loc) ∧
+        (∀ x ∈ (sstep tbl (n, s) op).1.2.rem, x ∈ s.rem) := by
+      obtain ⟨c1, c2, c3, c4⟩ := C12_session_inert_while_not_on hg n s hne hnic op
+      cases op with
+      | req key sub =>
+        have hk : key ≠ "startup" := by
+          intro hk; subst hk; exact hns _ (List.mem_cons_self) sub rfl
+        have := (c1 key sub rfl hk).1
+        rw [this]; exact ⟨rfl, Or.inr rfl, fun _ h => h⟩
+      | login j remote => rw [c2 j remote rfl]; exact ⟨rfl, Or.inr rfl, fun _ h => h⟩
+      | frame i => rw [c3 i rfl]; exact ⟨rfl, Or.inr rfl, fun _ h => h⟩
+      | sweep t => exact c4 t rfl
+    obtain ⟨h1, h2, h3⟩ := hstep
+    have e1 : (sstep tbl (n, s) op).1 = (n, (sstep tbl (n, s) op).1.2) := Prod.ext h1 rfl
+    have e2 : srun tbl (n, s) (op :: ops) = srun tbl (n, (sstep tbl (n, s) op).1.2) ops := by
+      show srun tbl (sstep tbl (n, s) op).1 ops = _
+      rw [e1]
+    rw [e2]
+    obtain ⟨r1, r2, r3⟩ := ih (sstep tbl (n, s) op).1.2 (fun o ho => hns o (List.mem_cons_of_mem _ ho))
+    refine ⟨r1, ?_, fun x hx => h3 x (r3 x hx)⟩
+    rcases r2 with r2 | r2
+    · exact Or.inl r2
+    · rcases h2 with h2 | h2
+      · exact Or.inl (by rw [r2, h2])
+      · exact Or.inr (by rw [r2, h2])
+
+/-- non-vacuity: a local and a remote session on a node that has just been shut down; a login, a terminal request and
+a frame bounce; the sweeps keep the young sessions and end them at the time-out -/
+example :
+    let n := run baseRoutes exOn [shutdownOp]
+    let s : Sessions := { now := 2, loc := some 2, rem := [2], localTimeout := 3, remoteTimeout := 3 }
+    ((sstep baseRoutes (n, s) (.login 0 true)).2, (sstep baseRoutes (n, s) (.req "service" (.svc 0 .stop))).2,
+     (sstep baseRoutes (n, s) (.frame 0)).2, (sstep baseRoutes (n, s) (.sweep 4)).1.2.rem, (sstep baseRoutes (n, s) (.sweep 5)).1.2.rem) =
+    (.login false, .resp .failure, .climbed [.iface], [2], []) := by decide
+
 end Primaite.Power
